@@ -2,6 +2,7 @@
 //!   vh record <domain> --out FILE [--seed N] [--tier quick|thorough] [--n N] [--events a,b,c] [--part i/n]
 //!   vh replay <domain> --in FILE --out FILE
 mod graphdom;
+mod graphdom2;
 mod graphrec;
 mod util;
 
